@@ -349,6 +349,23 @@ func (vc *VC) newAlloc(st *State, t types.Type, escaped bool) *allocInfo {
 		// directly because it is what most proofs need)
 		vc.assume(st, sNot(sEq(r, o.ref)))
 	}
+	// nor is it an element of any map (every reference stored anywhere was allocated before)
+	for _, mt := range vc.eng.refMaps {
+		m := mt.Underlying().(*types.Map)
+		if !refCompatible(m.Elem(), t) {
+			continue
+		}
+		if _, ok := mapKeyTerm(vc, zeroValue(m.Key()), m.Key()); !ok {
+			continue
+		}
+		fam := mapFam(mt)
+		has := vc.get(st, fam+".has", "(Array Int (Array Int Bool))")
+		val := vc.get(st, fam+".val", "(Array Int (Array Int Int))")
+		vc.nfresh++
+		qm, qk := sym(fmt.Sprintf("m!q%d", vc.nfresh)), sym(fmt.Sprintf("k!q%d", vc.nfresh))
+		sel := "(select (select " + val + " " + qm + ") " + qk + ")"
+		vc.assume(st, "(forall (("+qm+" Int) ("+qk+" Int)) (! (=> (select (select "+has+" "+qm+") "+qk+") (not (= "+sel+" "+r+"))) :pattern ("+sel+")))")
+	}
 	vc.set(st, allocKey, allocSort, sStore(al, r, "true"))
 	// a new object starts with clean ghost state (not locked, not done, nothing sent, open)
 	for _, g := range []string{"held", "once_done", "wg", "chanclosed", "chansent", "chanrecv", "chanlen"} {
